@@ -63,11 +63,27 @@ impl Monitor for C09 {
         if cuts.windows(2).any(|w| w[1] - w[0] > chunk) {
             rep.inc("docs_with_line_longer_than_chunk");
         }
+        // one of the public constructors; from_buf_reader gets a BufReader that already holds the first
+        // line (only for non-empty input: an empty one would make the BufReader itself see the end)
+        let ctor = match rng.below(8) {
+            0 => Ctor::FromRead,
+            1 => Ctor::FromBoxed,
+            2 | 3 if len > 0 => Ctor::FromBufReader(*rng.pick(&[64usize, 4096, 16384, 40000])),
+            4 => Ctor::AfterPreamble(1 + rng.usize(40), chunk),
+            _ => Ctor::Chunk(chunk),
+        };
+        rep.inc(match ctor {
+            Ctor::Chunk(_) => "ctor:new",
+            Ctor::FromRead => "ctor:from_read",
+            Ctor::FromBoxed => "ctor:from_boxed_dyn_read",
+            Ctor::FromBufReader(_) => "ctor:from_buf_reader_holding_first_line",
+            Ctor::AfterPreamble(..) => "ctor:new_on_advanced_reader",
+        });
         let src = Src::new(data.clone(), Policy::Cuts(cuts.clone()), 0);
         let mut at_return: Vec<usize> = vec![];
         let mut items: Vec<String> = vec![];
         let outcome = sut(|| {
-            drive::run(cfg, Ctor::Chunk(chunk), src.clone(), &mut |s: &str| {
+            drive::run(cfg, ctor, src.clone(), &mut |s: &str| {
                 at_return.push(src.delivered());
                 items.push(s.to_string());
             })
@@ -120,7 +136,7 @@ impl Monitor for C09 {
                 let tsrc = Src::new(data.clone(), Policy::Cuts(cuts.clone()), 0).truncated_at(prev);
                 let mut titems: Vec<String> = vec![];
                 let _ = sut(|| {
-                    drive::run(cfg, Ctor::Chunk(chunk), tsrc.clone(), &mut |s: &str| {
+                    drive::run(cfg, ctor, tsrc.clone(), &mut |s: &str| {
                         titems.push(s.to_string());
                     })
                 });
@@ -144,7 +160,7 @@ impl Monitor for C09 {
         }
         if items.len() >= 2 && cuts.len() >= 3 {
             rep.inc("nontrivial_documents");
-            rep.nontrivial(H::new().b(bytes).u(cfg.code()).u(chunk as u64).get());
+            rep.nontrivial(H::new().b(bytes).u(cfg.code()).u(chunk as u64).b(ctor.describe().as_bytes()).get());
             if rep.want_sample() && input.class == Class::Generated && len < 400 {
                 rep.sample(|| {
                     J::obj()
@@ -174,6 +190,7 @@ impl Monitor for C09 {
                     .set("input", J::bytes(bytes))
                     .set("input_class", J::s(input.class.name()))
                     .set("chunk", J::u(chunk))
+                    .set("constructor", J::s(ctor.describe()))
                     .set("cuts", J::A(cuts.iter().take(40).map(|&c| J::u(c)).collect()))
                     .set("problems", J::A(problems.into_iter().map(J::s).collect())),
             );
